@@ -118,6 +118,10 @@ func c17Run(c *Ctx) {
 		srv.S.Stop()
 		select {
 		case err := <-runRet:
+			if err != nil && strings.Contains(err.Error(), "address already in use") {
+				c.Count("harness_port_races_skipped", 1) // the probed port was taken before Run bound it
+				continue
+			}
 			if err != nil {
 				c.Violate("Run returned an error for a valid address", fmt.Sprintf("%s: %v", addr, err), det)
 			}
